@@ -14,6 +14,7 @@ Nothing is written into /repo or into /verif/evidence/<id>.json (vcheck diverts 
 """
 import sys, os, re, json, subprocess, shutil, argparse, threading, queue, time
 
+KINDS = {"op", "del"}
 ENV = dict(os.environ, GOFLAGS="-mod=mod", GOPROXY="off", GOSUMDB="off", GOTOOLCHAIN="local")
 REPO = "/repo"
 
@@ -66,6 +67,7 @@ def sites(path, text):
     res = []
     in_block = False
     depth_func = False
+    in_decl = False
     for ln, line in enumerate(lines):
         s = line.strip()
         if in_block:
@@ -82,6 +84,21 @@ def sites(path, text):
             depth_func = True
         if line.startswith("}"):
             depth_func = False
+        if line.startswith("const (") or line.startswith("var ("):
+            in_decl = True
+            continue
+        if line.startswith(")"):
+            in_decl = False
+        if (in_decl or line.startswith("const ")) and "lit" in KINDS and not depth_func:
+            code = strip_code(line)
+            for m in re.finditer(r"(?<![\w.])(0x[0-9a-fA-F]+|[1-9][0-9]*)(?![\w.])", code):
+                v = int(m.group(1), 0)
+                if v < 2:
+                    continue
+                fmtv = (lambda x: hex(x)) if m.group(1).startswith("0x") else (lambda x: str(x))
+                res.append((ln, m.start(), m.end(), fmtv(v + 1), "lit"))
+                res.append((ln, m.start(), m.end(), fmtv(v - 1), "lit"))
+            continue
         if not depth_func or line.startswith("func "):
             continue
         code = strip_code(line)
@@ -91,6 +108,24 @@ def sites(path, text):
             for m in re.finditer(pat, code):
                 for rep in reps:
                     res.append((ln, m.start(), m.end(), rep, "op"))
+        if "lit" in KINDS:
+            # numeric literals other than 0/1: one more and one less (masks, shifts, sizes)
+            for m in re.finditer(r"(?<![\w.])(0x[0-9a-fA-F]+|[1-9][0-9]*)(?![\w.])", code):
+                v = int(m.group(1), 0)
+                if v < 2:
+                    continue
+                fmtv = (lambda x: hex(x)) if m.group(1).startswith("0x") else (lambda x: str(x))
+                res.append((ln, m.start(), m.end(), fmtv(v + 1), "lit"))
+                res.append((ln, m.start(), m.end(), fmtv(v - 1), "lit"))
+        if "if" in KINDS:
+            m = re.match(r"^(\t+(?:\} else )?if )([^;{]+)( \{)$", code.rstrip())
+            if m:
+                res.append((ln, len(m.group(1)), len(m.group(1)) + len(m.group(2)), "true", "if"))
+                res.append((ln, len(m.group(1)), len(m.group(1)) + len(m.group(2)), "false", "if"))
+        if "op" not in KINDS:
+            res = [x for x in res if x[4] != "op"]
+        if "del" not in KINDS:
+            continue
         # statement deletion: a line that is a plain call, assignment or ++/-- (no control flow, no declaration keyword)
         if re.match(r"^\t+[\w\.\[\]\*\(\)]+(\(.*\)|\s*(=|\+=|-=|\|=|&=|&\^=|<<=|>>=)\s.*|\+\+|--)$", code.rstrip()) and not re.match(r"^\t+(return|defer|go|if|for|switch|case|var|const|type)\b", code):
             if code.count("(") == code.count(")") and code.count("{") == code.count("}"):
@@ -174,7 +209,10 @@ def main():
     ap.add_argument("--props", default="")
     ap.add_argument("--skip", default="", help="comma separated substrings of files to leave out")
     ap.add_argument("--stride", type=int, default=1, help="take every n-th site")
+    ap.add_argument("--kinds", default="op,del", help="op,del,lit,if")
     args = ap.parse_args()
+    KINDS.clear()
+    KINDS.update(args.kinds.split(","))
     props_of = {}
     for l in open("/verif/properties.jsonl"):
         d = json.loads(l)
